@@ -69,6 +69,7 @@ def check(ctx):
                 problems.append((why, {"grammar": gi["text_noast"] if B.OPTSETS[o]["noast"] else gi["text"], "options": B.OPTSETS[o], "why": why}))
     # the label / block / variable skeleton of every rule function vs Model/Emit.v (structural tie, needs no input)
     skel_cmp = 0
+    stmt_cmp = 0
     for gid, gi in data["grammars"].items():
         for o, oi in gi["opts"].items():
             if oi.get("emit") is None or oi.get("skel") is None or oi.get("conv_err"):
@@ -91,7 +92,7 @@ def check(ctx):
         bt.generate().build()
         # the rule-constant type in the emitted file vs the model's choice from the tree length
         import re as _re
-        mlines, emitted, skels = [], {}, {}
+        mlines, emitted, skels, stmts = [], {}, {}, {}
         for g in gs:
             for o in allopts:
                 it = bt.items[(g["id"], o)]
@@ -113,11 +114,32 @@ def check(ctx):
                             from .. import emitskel
                             sk = emitskel.skeletons(open(pth, encoding="utf-8", errors="replace").read())
                             skels[cid] = (";".join(sk) if sk is not None else None, names, g, o)
+                            sts = emitskel.statements(open(pth, encoding="utf-8", errors="replace").read())
+                            stmts[cid] = ";".join(sts) if sts is not None else None
                             mlines.append("grammar %s %d %s" % (cid, ptx, sexp))
                             mlines.append("emit %s %d %d %s" % (cid, 0 if B.OPTSETS[o]["noast"] else 1, 1 if B.OPTSETS[o]["inline"] else 0, P.undef_bits(nodes)))
+                            mlines.append("semit %s %d %d %s" % (cid, 0 if B.OPTSETS[o]["noast"] else 1, 1 if B.OPTSETS[o]["inline"] else 0, P.undef_bits(nodes)))
                     except P.ConvError:
                         pass
-        rc_, out_, err_ = C.run(["bash", "-c", "ulimit -s unlimited 2>/dev/null; exec " + B.Model().exe], input="\n".join(mlines) + "\n", timeout=600)
+        # the driver is single-threaded: the lines of one generated file stay together, the files are spread over processes
+        import concurrent.futures
+        exe_ = B.Model().exe
+        groups_ = {}
+        for ln in mlines:
+            groups_.setdefault(ln.split(" ")[1], []).append(ln)
+        chunks_ = [[] for _ in range(16)]
+        for k_, key_ in enumerate(sorted(groups_, key=lambda x: -sum(len(y) for y in groups_[x]))):
+            chunks_[k_ % 16].extend(groups_[key_])
+
+        def one_(chunk):
+            if not chunk:
+                return 0, "", ""
+            return C.run(["bash", "-c", "ulimit -s unlimited 2>/dev/null; exec " + exe_], input="\n".join(chunk) + "\n", timeout=600)
+        with concurrent.futures.ThreadPoolExecutor(max_workers=16) as ex_:
+            results_ = list(ex_.map(one_, chunks_))
+        rc_ = next((r[0] for r in results_ if r[0] != 0), 0)
+        out_ = "\n".join(r[1] for r in results_)
+        err_ = "\n".join(r[2] for r in results_ if r[2])
         if rc_ != 0:
             problems.append(("the model driver failed on the dedicated streams (rc=%s): %s" % (rc_, err_[-300:]),
                              {"why": "model driver", "broken": "model driver", "options": {}}))
@@ -135,6 +157,23 @@ def check(ctx):
                             g["id"], names[k] if k < len(names) else k, (ks[k] if k < len(ks) else "-")[:150], (ms[k] if k < len(ms) else "-")[:150])
                         problems.append((why, {"grammar": g["text"][:2000], "stream": g["id"], "options": B.OPTSETS[o], "why": why,
                                                "broken": "correspondence Model/Emit.v ~ tree/peg.go compile"}))
+            if line.startswith("semit "):
+                head, want = line.split(" :: ")
+                cid = head.split(" ")[1].rsplit("/", 1)[0]
+                got = stmts.get(cid)
+                _, names, g, o = skels.get(cid, (None, None, None, None))
+                want = want.split(" ", 1)[1] if want.startswith("deep=") else want
+                if got is not None and g is not None:
+                    stmt_cmp += 1
+                    if got != want:
+                        ms, ks = want.split(";"), got.split(";")
+                        k = next((i for i, (a, b) in enumerate(zip(ms, ks)) if a != b), min(len(ms), len(ks)))
+                        ma, ka = (ms[k] if k < len(ms) else "-").split(","), (ks[k] if k < len(ks) else "-").split(",")
+                        j = next((i for i, (a, b) in enumerate(zip(ma, ka)) if a != b), min(len(ma), len(ka)))
+                        why = "[%s] the statements emitted for rule %s differ from Model/SEmit.v at statement %d: emitted ..%s, model ..%s" % (
+                            g["id"], names[k] if k < len(names) else k, j, ",".join(ka[max(0, j - 3):j + 4])[:120], ",".join(ma[max(0, j - 3):j + 4])[:120])
+                        problems.append((why, {"grammar": g["text"][:2000], "stream": g["id"], "options": B.OPTSETS[o], "why": why,
+                                               "broken": "correspondence Model/SEmit.v ~ tree/peg.go compile"}))
             if line.startswith("ruletype "):
                 head, want = line.split(" :: ")
                 cid = head.split(" ")[1]
@@ -186,6 +225,7 @@ def check(ctx):
         "rule": "every file generated for the shared batch (random/backtracking/switch-shaped/inline-shaped grammars x 8 option sets) plus dedicated streams (%s) x 8 option sets: go build (parse + type check + compile), gofmt -l; a file counts as non-trivial per distinct grammar; plus %d files of 3000 (thorough: and 66000) rules parsed, type-checked and gofmt-checked without instantiating the parser" % (", ".join(g["id"] for g in gs), tc_files),
         "problems": len(problems),
         "skeletons_compared": skel_cmp,
+        "statement_level_files_compared": stmt_cmp,
         "samples": [{"stream": g["id"], "grammar": g["text"][:160]} for g in gs[1:4]],
     })
 
